@@ -92,6 +92,22 @@ pub fn decimal(r: &mut Rng) -> (i128, u8) {
     }
 }
 
+/// "wrap alias" pair for every operation that aligns scales: (x, f) and (y, f + k) such that x * 10^k computed with
+/// WRAPPING 128-bit arithmetic lands on y (or next to it) although the true product is far outside the coefficient range:
+/// x = a + j * 2^(128-k), because 10^k = 2^k * 5^k annihilates the second term modulo 2^128.  Checked scaling must
+/// treat such a pair as "x is huge", never as "x equals y".
+pub fn wrap_alias(r: &mut Rng) -> ((i128, u8), (i128, u8)) {
+    let k = 2 + r.below(17) as u32; // 2..=18
+    let f = r.below(19 - k as u64) as u32; // f + k <= 18
+    let a = r.range(-999, 999) as i128;
+    let step: i128 = 1_i128 << (128 - k); // <= 2^126
+    let jmax = ((MAXC - 1000) / step).max(1);
+    let j = 1 + r.below(jmax.min(1 << 20) as u64) as i128;
+    let x = if r.bool() { a + j * step } else { a - j * step };
+    let y = a * p10(k) + r.range(-1, 1) as i128 * (r.below(2) as i128);
+    ((x, f as u8), (y, (f + k) as u8))
+}
+
 pub fn int_value(r: &mut Rng, ty: &str) -> i128 {
     let (lo, hi): (i128, i128) = match ty {
         "u8" => (0, u8::MAX as i128),
@@ -151,6 +167,11 @@ pub fn operand_pair(r: &mut Rng, allow_int_int: bool) -> (Value, &'static str, V
         6 => {
             let t = int_type(r);
             (dj(int_value(r, t), 0), t, dj(int_value(r, t), 0), t)
+        }
+        2 if r.below(4) == 0 => {
+            // coefficients that alias each other under wrapping scale alignment
+            let ((a, af), (b, bf)) = wrap_alias(r);
+            if r.bool() { (dj(a, af), "dec", dj(b, bf), "dec") } else { (dj(b, bf), "dec", dj(a, af), "dec") }
         }
         _ => (dj(xc, xf), "dec", dj(yc, yf), "dec"),
     }
